@@ -170,13 +170,21 @@ def model_compare(model, c, gradp, reactions, floor, iimg):
         boxes = [[list(lo), list(hi)] for lo, hi in lev['boxes']]
         if sum(len(c) for _, c in subs['state'][0]) > 250000:
             continue      # the list-based model is quadratic in the file size: large levels are checked by the oracle only
-        st, m = model.call('chk2plt_level', [boxes, subs['state'][0], subs['state'][1], subs['gradp'][0], subs['gradp'][1],
+        nout = len(genchk.expected_fields(c, gradp, reactions))
+        st, m = model.call('chk2plt_level_dir', [nout, boxes, subs['state'][0], subs['state'][1], subs['gradp'][0], subs['gradp'][1],
                                              subs['I_R'][0], subs['I_R'][1], 1 if gradp else 0, 1 if reactions else 0,
                                              [floored] if floor else [], 4, ns])
         if st != 'ok':
             return f'level {lv}: the model refuses the case'
-        mfiles, mcells, mmins, mmaxs = m
+        mcellh, mfiles = m
         d = iimg['dirs'][f'Level_{lv}']
+        # the level header chk2plt wrote, token for token (floats by value: '%.16e' prints against the model's stand-ins)
+        if not mcellh or oracle.canon_tokens(d['cellh']) != oracle.canon_tokens(mcellh[0]):
+            mt = oracle.canon_tokens(mcellh[0]) if mcellh else []
+            it = oracle.canon_tokens(d['cellh'])
+            k = next((i for i, (a, b) in enumerate(zip(it, mt)) if a != b), min(len(it), len(mt)))
+            return (f"level {lv}: the level header differs from the model's (Writers.Chk2plt.convert_level_dir) at line {k}: "
+                    f"{it[k] if k < len(it) else None} vs {mt[k] if k < len(mt) else None}")
         got_files = {k: v for k, v in d['files'].items()}
         want_files = {n.decode(): content for n, content in mfiles}
         if sorted(got_files) != sorted(want_files):
@@ -184,9 +192,6 @@ def model_compare(model, c, gradp, reactions, floor, iimg):
         for n in got_files:
             if got_files[n] != want_files[n]:
                 return f"level {lv}: {n} differs from the model ({len(got_files[n])} vs {len(want_files[n])} bytes)"
-        cells = diskimg.parse_cellh_strict(d['cellh'], int(d['cellh'][2][0]))
-        if [(fn, off) for _, _, fn, off in cells] != [(n.decode(), off) for n, off in mcells]:
-            return f"level {lv}: (file, offset) table differs from the model"
     return None
 
 
